@@ -4,9 +4,13 @@
 # critical section = one verif hook.
 #  1. TLC proves InvSeqStep / InvContiguous / InvNoMisuse / InvFreshInst on the contract model
 #     (senders x chunks x one renewal that may fail, counter wrap inside the run).
-#  2. Deviation demos = the code as it is: Dev_GateGap and Dev_FailedRenewSeq each violate InvSeqStep.
+#  2. Deviation demos: Dev_GateGap (the code as it is, open finding) and Dev_FailedRenewSeq (repaired in
+#     61b5747, kept as non-vacuity demo) each violate InvSeqStep.
 #  3. TLC generates schedules of the as-is model (seeded random walks); a seeded sample (stratified by the order of the
 #     numbering/writing steps) is forced on the real client channel through the hook gates.
+#     A sender's context may end in the middle of a multi-chunk message (the chunk it is parked at is
+#     still written, the call returns the context error): the numbers used stay used, the next message
+#     continues after them (demo: handing them back violates InvSeqStep).
 #  4. Free-running runs: senders with 1-3 chunk messages, multi-chunk responses from several server
 #     goroutines, renewals in between, counters started just below the wrap point, None and
 #     Basic256Sha256/SignAndEncrypt.
@@ -18,7 +22,7 @@ import vf
 
 
 def order_class(sched):
-    keep = ("send.enter", "send.add", "chunk.write", "renew.locked", "renew.waited", "open.copied", "open.installed", "wait.timeout")
+    keep = ("send.enter", "send.add", "chunk.write", "abort", "renew.locked", "renew.waited", "open.copied", "open.installed", "wait.timeout")
     return ",".join(s["p"][-1] + ":" + s["to"].split(".")[-1] for s in sched if s["to"] in keep)
 
 
@@ -29,16 +33,18 @@ def body(run):
         lambda: run.tlc("ScSend", "ScSend", "ScSend_mc.cfg", label="contract: 2 senders x <=2 chunks, renewal may fail, wrap", workers=2, timeout=1500),
         lambda: run.tlc("ScSend", "ScSend", "ScSend_dev_gategap.cfg", expect="violation", count=False, workers=1, label="as-is: gate gap"),
         lambda: run.tlc("ScSend", "ScSend", "ScSend_dev_gategap_misuse.cfg", expect="violation", count=False, workers=1, label="as-is: WaitGroup misuse"),
-        lambda: run.tlc("ScSend", "ScSend", "ScSend_dev_failedrenew.cfg", expect="violation", count=False, workers=1, label="as-is: failed renewal keeps the old counter"),
+        lambda: run.tlc("ScSend", "ScSend", "ScSend_dev_failedrenew.cfg", expect="violation", count=False, workers=1, label="demo (repaired 61b5747): failed renewal keeps the old counter"),
         lambda: run.tlc("ScSend", "ScSend", "ScSend_gen_asis.cfg" if q else "ScSend_gen_asis_t.cfg", mode="gen", count=False, timeout=3000,
                         simulate=run.pick(400, 6000), depth=100, label="schedules of the as-is model (seeded random walks to terminal states)"),
         lambda: exe.__setitem__(0, run.go_build("scsend")),
+        lambda: run.tlc("ScSend", "ScSend", "ScSend_dev_resetonabort.cfg", expect="violation", count=False, workers=1,
+                        label="demo: aborted multi-chunk send hands its numbers back"),
     ]
     if not q:
         jobs.append(lambda: run.tlc("ScSend", "ScSend", "ScSend_mc_t.cfg", label="contract: 3 senders x <=3 chunks", workers=6, timeout=3000))
     res = run.parallel(*jobs)
-    if [res[1].violated, res[2].violated, res[3].violated] != ["InvSeqStep", "InvNoMisuse", "InvSeqStep"]:
-        raise vf.Inconclusive("deviation demos violated %s" % [res[1].violated, res[2].violated, res[3].violated])
+    if [res[1].violated, res[2].violated, res[3].violated, res[6].violated] != ["InvSeqStep", "InvNoMisuse", "InvSeqStep", "InvSeqStep"]:
+        raise vf.Inconclusive("deviation demos violated %s" % [res[1].violated, res[2].violated, res[3].violated, res[6].violated])
     behs = res[4].rows
     # stratified sample over the order classes; behaviours in which the model's wire breaks the
     # invariant (these are the counterexamples of the deviation demos) are over-represented
@@ -52,7 +58,9 @@ def body(run):
     rnd.shuffle(classes)
     nbad, ngood = run.pick(40, 600), run.pick(40, 600)
     sample = [rnd.choice(by[c]) for c in classes[:nbad]]
-    sample += rnd.sample(good, min(ngood, len(good)))
+    ab = [b for b in good if any(st["to"] == "abort" for st in b["sched"])]
+    na = [b for b in good if b not in ab]
+    sample += rnd.sample(ab, min(ngood // 2, len(ab))) + rnd.sample(na, min(ngood - ngood // 2, len(na)))
     cases = [{"n": i, "mode": "sched", "sched": b["sched"]} for i, b in enumerate(sample)]
     expect_bad = {i: (not b["stepok"]) for i, b in enumerate(sample)}
     base = len(cases)
@@ -118,11 +126,12 @@ def body(run):
             continue
         scen = o.get("scenario", "")
         if v["verdict"] == "stale":
-            key = {"sched-renew-ok": "duplicate-seq-sender-captured-instance-before-renewal",
-                   "sched-renew-fails": "duplicate-seq-after-failed-renewal"}.get(scen, "duplicate-seq-on-superseded-instance")
+            key = ("duplicate-seq-sender-captured-instance-before-renewal" if scen.startswith("sched-renew-ok") else
+                   "duplicate-seq-after-failed-renewal" if scen.startswith("sched-renew-fails") else
+                   "duplicate-seq-on-superseded-instance")
             reproduced += 1
         else:
-            key = "sequence-" + v["verdict"]
+            key = "sequence-" + v["verdict"] + ("-after-aborted-message" if scen.endswith("-abort") else "")
         ev = o["events"][max(0, v["at"] - 3): v["at"] + 1]
         r["status"], r["key"] = "violation", key
         r["detail"] = "%s: chunk %d of the trace breaks the rule (%s); last chunks: %s" % (
